@@ -193,7 +193,7 @@ theorem diff_multi_step (F : FetchFn) (e : Envs) (f : Nat) (sm : Meta) (mkids co
   unfold stepG
   simp only [hmult, Bool.not_true, Bool.false_eq_true, if_false]
   unfold multiBranch
-  rw [hk0, hfm, List.nil_append]
+  rw [masterKeyG_defn, hk0, hfm, List.nil_append]
   simp only
   -- replace the diff-mode fold by the non-diff fold
   have hfold : ∀ init : CAcc,
